@@ -273,3 +273,79 @@ func Verif_C09_Snippets() {
 	verifsym.Observe("got", got)
 	verifsym.Reach("end")
 }
+
+// vAssumeTemplateDomain: every '@' starts a non-empty name.
+func vAssumeTemplateDomain(b []byte) {
+	n := len(b)
+	for i := range b {
+		if b[i] == '@' {
+			verifsym.Assume(i+1 < n)
+			if i+1 < n {
+				verifsym.Assume(vIsName(b[i+1]))
+			}
+		}
+	}
+}
+
+// Verif_C09_TemplateLong: formats beyond the exhaustive bound, sparsely
+// symbolic: the first `fill` bytes of a concrete template text with several
+// placeholders (incl. an eight-character name region and adjacent
+// placeholders), in which two bytes at case-split positions are arbitrary
+// ASCII bytes (0x01..0x7F, every '@' still starting a name): same assertions
+// as Template.
+func Verif_C09_TemplateLong(fill int) {
+	text := []byte("\n\nfunc @a'Name(@ab@b x) { return @c' + @a@a'y_@ab }\n")
+	verifsym.Assume(fill <= len(text))
+	b := append([]byte(nil), text[:fill]...)
+	i := verifsym.IntRange(0, fill-2)
+	j := verifsym.IntRange(i+1, fill-1)
+	b[i], b[j] = verifsym.Byte(), verifsym.Byte()
+	for _, p := range []int{i, j} {
+		verifsym.Assume(b[p] >= 1)
+		verifsym.Assume(b[p] < 0x80)
+	}
+	vAssumeTemplateDomain(b)
+	format := string(b)
+	want, wantPanic := vRefTemplate(format)
+	got := ""
+	panicked := verifsym.Panics(func() {
+		got = vRender(T(format, vTemplateArgs()...))
+	})
+	verifsym.Assert(panicked == wantPanic, "panics iff a placeholder has no bound argument")
+	if !panicked && !wantPanic {
+		verifsym.Assert(got == want, "rendered text differs from faithful substitution")
+	}
+	verifsym.Observe("got", got)
+	verifsym.Reach("end")
+}
+
+// Verif_C09_SprintfLong: a long concrete format with k arguments (k up to 6) and
+// two arbitrary ASCII bytes at case-split positions.
+func Verif_C09_SprintfLong(fill, k int) {
+	text := []byte("a=%v, b=%T; 100%% of %v%v and %T%v.")
+	verifsym.Assume(fill <= len(text))
+	b := append([]byte(nil), text[:fill]...)
+	i := verifsym.IntRange(0, fill-2)
+	j := verifsym.IntRange(i+1, fill-1)
+	b[i], b[j] = verifsym.Byte(), verifsym.Byte()
+	for _, p := range []int{i, j} {
+		verifsym.Assume(b[p] >= 1)
+		verifsym.Assume(b[p] < 0x80)
+	}
+	format := string(b)
+	args := make([]any, k)
+	for x := range args {
+		args[x] = Block("<" + string([]byte{'0' + byte(x)}) + ">")
+	}
+	want, wantPanic := vRefSprintf(format, k)
+	got := ""
+	panicked := verifsym.Panics(func() {
+		got = vRender(Sprintf(format, args...))
+	})
+	verifsym.Assert(panicked == wantPanic, "Sprintf panics iff an argument is missing or the verb is not %v %T %%")
+	if !panicked && !wantPanic {
+		verifsym.Assert(got == want, "Sprintf output differs from the reference")
+	}
+	verifsym.Observe("got", got)
+	verifsym.Reach("end")
+}
